@@ -1,8 +1,6 @@
 package types
 
 import (
-	"encoding/hex"
-
 	"github.com/ExocoreNetwork/exocore/utils"
 
 	errorsmod "cosmossdk.io/errors"
@@ -10,6 +8,7 @@ import (
 	assetstypes "github.com/ExocoreNetwork/exocore/x/assets/types"
 	sdk "github.com/cosmos/cosmos-sdk/types"
 	"github.com/ethereum/go-ethereum/common"
+	"github.com/ethereum/go-ethereum/common/hexutil"
 	"golang.org/x/xerrors"
 )
 
@@ -202,7 +201,8 @@ func (gs GenesisState) ValidateUndelegations() error {
 			return errorsmod.Wrap(ErrInvalidGenesisData, err.Error())
 		}
 
-		bytes, err := hex.DecodeString(undelegation.TxHash)
+		// the keeper stores common.Hash.String(), i.e. the 0x-prefixed hex form
+		bytes, err := hexutil.Decode(undelegation.TxHash)
 		if err != nil {
 			return errorsmod.Wrapf(
 				ErrInvalidGenesisData, "TxHash isn't a hex string, TxHash: %s",
